@@ -56,6 +56,7 @@ type lCase struct {
 	Pkgs    []lPkg `json:"pkgs"`
 	Ops     []lOp  `json:"ops"`
 	Budgets []int  `json:"budgets"`
+	E2E     *lE2E  `json:"e2e,omitempty"` // end-to-end part (layers_e2e.go), present in a fraction of the cases
 }
 
 type layersSuite struct{}
@@ -243,13 +244,22 @@ func genLayersCase(r *Rng, tier string) lCase {
 		}
 	}
 	c.Budgets = []int{0, 1, 2, 3, 4, 5, 6, 7, 8}
+	if r.Chance(8) {
+		c.Budgets = append(c.Budgets, -1-r.Intn(3)) // outside the property's quantifier: must be rejected, not crash
+	}
 	if tier == "thorough" && r.Chance(20) {
 		c.Budgets = append(c.Budgets, r.Range(9, 40))
 	}
 	return c
 }
 
-func (layersSuite) Gen(r *Rng, i int, tier string) any { return genLayersCase(r, tier) }
+func (layersSuite) Gen(r *Rng, i int, tier string) any {
+	c := genLayersCase(r, tier)
+	if i%8 == 3 {
+		c.E2E = genLayersE2E(r)
+	}
+	return c
+}
 
 // ---------- running the real code ----------
 
@@ -541,7 +551,7 @@ func (layersSuite) Run(raw json.RawMessage) []Step {
 			groups = gs
 			return "ok " + lEncGroups(gs)
 		}()
-		tags := append([]string{fmt.Sprintf("budget:%d", min(b, 9)), "group:" + gout[:2]}, shape...)
+		tags := append([]string{fmt.Sprintf("budget:%d", max(min(b, 9), -1)), "group:" + gout[:2]}, shape...)
 		if strings.HasPrefix(gout, "ok") {
 			tags = append(tags, fmt.Sprintf("groups:%d", len(groups)))
 		}
@@ -561,6 +571,9 @@ func (layersSuite) Run(raw json.RawMessage) []Step {
 			layers, err := build.VerifLayersOfFS(ctx, fsys, pkgs, b, tmp)
 			splitOn(b, fmt.Sprintf("budget=%d", b), groups, layers, err)
 		}
+	}
+	if c.E2E != nil {
+		steps = append(steps, runLayersE2E(ctx, c.E2E, tmp)...)
 	}
 	return steps
 }
